@@ -723,6 +723,14 @@ impl Sim {
                 start_after: p_opt(toks[1], p_u64),
                 limit: p_opt(toks[2], |t| t.parse::<u32>().unwrap()),
             },
+            "allreq" => QueryMsg::AllUnstakeRequests {
+                start_after: p_opt(toks[1], p_u64),
+                limit: p_opt(toks[2], |t| t.parse::<u32>().unwrap()),
+            },
+            "allreq2" => QueryMsg::AllUnstakeRequestsV2 {
+                start_after: p_opt(toks[1], p_u64),
+                limit: p_opt(toks[2], |t| t.parse::<u32>().unwrap()),
+            },
             x => panic!("bad query {x}"),
         };
         let r = self.query_raw(q);
@@ -766,7 +774,13 @@ impl Sim {
                             self.emit(format!("q.batch {}", Self::s_batch_resp(x)));
                         }
                     }
-                    "requests" => {
+                    "allreq2" => {
+                        let r: Vec<(String, u64, Uint128)> = from_json(&b).unwrap();
+                        for (user, batch_id, amount) in r {
+                            self.emit(format!("q.req {} {} {}", batch_id, hs(&user), amount.u128()));
+                        }
+                    }
+                    "requests" | "allreq" => {
                         let r: Vec<staking::state::UnstakeRequest> = from_json(&b).unwrap();
                         for x in r {
                             self.emit(format!("q.req {} {} {}", x.batch_id, hs(&x.user), x.amount.u128()));
@@ -960,7 +974,10 @@ impl Sim {
             }
             "fn" => {
                 self.step += 1;
-                self.run_fn(&toks[1..]);
+                // a helper that panics on its input is an observation, not a crash of the harness
+                if catch_unwind(AssertUnwindSafe(|| self.run_fn(&toks[1..]))).is_err() {
+                    self.emit("fn PANIC".to_string());
+                }
             }
             "leg0418" | "leg0420" | "leg100" => {
                 self.step += 1;
